@@ -584,7 +584,10 @@ def check_vocabulary(rep):
 
 
 def replay(case):
-    kind = case['kind']
+    kind = case.get('kind')
+    if kind is None and 'task' in case and 'trace' not in case:
+        # a generic report (exception escaping from the library, task set-up, time limit)
+        return sweep.replay_by_task(_dispatch)(case)
     if 'trace' in case:
         m = BddMachine(tuple(case['names']), max_handles=9, max_ext=9)
         return m.replay(case)
